@@ -15,6 +15,10 @@ For a tainted slot only normal return versus panic is reported. -/
 structure Slot where
   p : Packet
   tainted : Bool := false
+  /-- for a CONNECT: the slot whose PUBLISH was passed to `SetWill`. Go keeps the pointer: what is done to that
+  PUBLISH afterwards shows through `Will()` and in everything the encoder reads live from it (the flags and the
+  payload were copied by `SetWill`). -/
+  willFrom : Option String := none
 
 abbrev Slots := Std.HashMap String Slot
 
@@ -45,7 +49,7 @@ def parseFilters : List String → Option (List TopicFilter)
 def parseSetOp (slots : Slots) (name : String) (args : List String) : Option SetOp :=
   match name, args with
   | "SetWill", [w] => match slots.get? w with
-    | some ⟨.publish q, _⟩ => some (.setWill q)
+    | some ⟨.publish q, _, _⟩ => some (.setWill q)
     | _ => none
   | "SetWillDelayInterval", [v] => (parseU32? v).map .setWillDelayInterval
   | "SetCleanStart", [v] => (parseBool? v).map .setCleanStart
@@ -153,6 +157,22 @@ def roundTrip (p : Packet) : String :=
   | .refuse => "rt FAIL refuse"
   | .panic => "rt FAIL encpanic"
 
+/-- slot `w` now holds another object: CONNECTs that kept a pointer to the old one no longer follow the slot -/
+def dropAlias (slots : Slots) (w : String) : Slots :=
+  slots.fold (fun acc k v => if v.willFrom == some w then acc.insert k { v with willFrom := none } else acc) slots
+
+/-- the PUBLISH in slot `w` was modified in place: every CONNECT that holds it as its will sees the new state -/
+def followAlias (slots : Slots) (w : String) (q : Packet) : Slots :=
+  match q with
+  | .publish pub =>
+    slots.fold (fun acc k v =>
+      if v.willFrom == some w then
+        match v.p with
+        | .connect c => acc.insert k { v with p := .connect { c with will := some pub } }
+        | _ => acc
+      else acc) slots
+  | _ => slots
+
 def okOrPanic (tag : String) (panicked : Bool) : String :=
   if panicked then tag ++ " panic" else tag ++ " ok"
 
@@ -162,36 +182,38 @@ def step (slots : Slots) (line : String) : Slots × String :=
   | "RESET" :: _ => ({}, "ok")
   | "NOTE" :: _ => (slots, "note")
   | ["NEW", s, k] => match kindOfName k with
-    | some kk => (slots.insert s ⟨Packet.new kk, false⟩, "ok")
+    | some kk => ((dropAlias slots s).insert s ⟨Packet.new kk, false, none⟩, "ok")
     | none => (slots, "bad-op")
   | ["ZERO", s, k] => match kindOfName k with
-    | some kk => (slots.insert s ⟨Packet.zero kk, false⟩, "ok")
+    | some kk => ((dropAlias slots s).insert s ⟨Packet.zero kk, false, none⟩, "ok")
     | none => (slots, "bad-op")
   | "SET" :: s :: name :: args => match slots.get? s with
-    | some ⟨p, t⟩ => match parseSetOp slots name args with
+    | some ⟨p, t, wf⟩ => match parseSetOp slots name args with
       | some op => match p.apply op with
-        | some q => (slots.insert s ⟨q, t⟩, "ok")
+        | some q =>
+          let wf' := if name == "SetWill" then args.head? else wf
+          (followAlias (slots.insert s ⟨q, t, wf'⟩) s q, "ok")
         | none => (slots, "bad-op")
       | none => (slots, "bad-op")
     | none => (slots, "bad-op")
   | ["VIEW", s] => match slots.get? s with
-    | some ⟨p, false⟩ => (slots, "view " ++ viewLine p)
-    | some ⟨_, true⟩ => (slots, "view ok")
+    | some ⟨p, false, _⟩ => (slots, "view " ++ viewLine p)
+    | some ⟨_, true, _⟩ => (slots, "view ok")
     | none => (slots, "bad-op")
   | ["ENC", s] => match slots.get? s with
-    | some ⟨p, false⟩ => match p.encodeG with
+    | some ⟨p, false, _⟩ => match p.encodeG with
       | .bytes b => (slots, "enc " ++ hexOfBytes b ++ " n=" ++ toString b.length ++ " err=0")
       | .refuse => (slots, "enc - n=0 err=1")
       | .panic => (slots, "enc panic")
-    | some ⟨p, true⟩ => (slots, okOrPanic "enc" (p.encodeG == .panic))
+    | some ⟨p, true, _⟩ => (slots, okOrPanic "enc" (p.encodeG == .panic))
     | none => (slots, "bad-op")
   | ["DEC", s, h] => match slots.get? s, bytesOfHex h with
-    | some ⟨p, t⟩, some d =>
+    | some ⟨p, t, wf⟩, some d =>
       match p.unmarshal d with
-      | (q, .ok) => (slots.insert s ⟨q, t⟩, if t then "dec ok" else "dec ok " ++ viewLine q)
-      | (q, .err _) => (slots.insert s ⟨q, true⟩, "dec err")
-      | (q, .panic) => (slots.insert s ⟨q, true⟩, "dec panic")
-      | (q, .hang) => (slots.insert s ⟨q, true⟩, "dec hang")
+      | (q, .ok) => (followAlias (slots.insert s ⟨q, t, wf⟩) s q, if t then "dec ok" else "dec ok " ++ viewLine q)
+      | (q, .err _) => (followAlias (slots.insert s ⟨q, true, wf⟩) s q, "dec err")
+      | (q, .panic) => (followAlias (slots.insert s ⟨q, true, wf⟩) s q, "dec panic")
+      | (q, .hang) => (followAlias (slots.insert s ⟨q, true, wf⟩) s q, "dec hang")
     | _, _ => (slots, "bad-op")
   | "RD" :: s :: h :: rest =>
     match bytesOfHex h, (kv? "sched" rest).bind parseSched, (kv? "eofwd" rest), (kv? "fail" rest).bind parseFail,
@@ -199,12 +221,12 @@ def step (slots : Slots) (line : String) : Slots × String :=
     | some d, some sched, some ew, some fl, some calls =>
       let r : Reader := { data := d, sched := sched, eofWithData := ew == "1", fail := fl }
       let (outs, last) := rdCalls fl calls r none []
-      let slots := match last with | some p => slots.insert s ⟨p, false⟩ | none => slots
+      let slots := match last with | some p => (dropAlias slots s).insert s ⟨p, false, none⟩ | none => slots
       (slots, "rd " ++ " || ".intercalate outs)
     | _, _, _, _, _ => (slots, "bad-op")
   | "WR" :: s :: rest =>
     match slots.get? s, kv? "accept" rest, kv? "err" rest with
-    | some ⟨p, t⟩, some acc, some e =>
+    | some ⟨p, t, _⟩, some acc, some e =>
       let accept := if acc == "all" then none else acc.toNat?
       let err := if e == "0" then none else (e.drop 1).toString.toNat?
       let res := writeTo p { accept := accept, err := err }
@@ -219,27 +241,27 @@ def step (slots : Slots) (line : String) : Slots × String :=
           ++ " n=" ++ toString res.n ++ " err=" ++ errS)
     | _, _, _ => (slots, "bad-op")
   | ["STR", s] => match slots.get? s with
-    | some ⟨p, false⟩ => (slots, rendStr "str" p.string)
-    | some ⟨p, true⟩ => (slots, okOrPanic "str" (p.string == .panic))
+    | some ⟨p, false, _⟩ => (slots, rendStr "str" p.string)
+    | some ⟨p, true, _⟩ => (slots, okOrPanic "str" (p.string == .panic))
     | none => (slots, "bad-op")
   | ["DUMP", s] => match slots.get? s with
-    | some ⟨p, false⟩ => (slots, rendStr "dump" p.dump)
-    | some ⟨p, true⟩ => (slots, okOrPanic "dump" (p.dump == .panic))
+    | some ⟨p, false, _⟩ => (slots, rendStr "dump" p.dump)
+    | some ⟨p, true, _⟩ => (slots, okOrPanic "dump" (p.dump == .panic))
     | none => (slots, "bad-op")
   | ["WF", s] => match slots.get? s with
-    | some ⟨p, false⟩ => (slots, wfStr p.wellFormed)
-    | some ⟨_, true⟩ => (slots, "wf ok")
+    | some ⟨p, false, _⟩ => (slots, wfStr p.wellFormed)
+    | some ⟨_, true, _⟩ => (slots, "wf ok")
     | none => (slots, "bad-op")
   | ["SCRIBBLE", _] => (slots, "ok")
   | ["FCOPY", _, _, _, _] => (slots, "ok")   -- a TopicFilter copied out of a packet and modified: the packet is untouched
   | ["RT", s] => match slots.get? s with
-    | some ⟨p, false⟩ => (slots, roundTrip p)
-    | some ⟨_, true⟩ => (slots, "rt ok")
+    | some ⟨p, false, _⟩ => (slots, roundTrip p)
+    | some ⟨_, true, _⟩ => (slots, "rt ok")
     | none => (slots, "bad-op")
   | ["RDP", s, d] => match slots.get? s with
-    | some ⟨p, false⟩ => match p.encodeG with
+    | some ⟨p, false, _⟩ => match p.encodeG with
       | .bytes b => match readPacket (Reader.contig b) with
-        | (.pkt q, _) => (slots.insert d ⟨q, false⟩, "rdp " ++ viewLine q)
+        | (.pkt q, _) => ((dropAlias slots d).insert d ⟨q, false, none⟩, "rdp " ++ viewLine q)
         | _ => (slots, "rdp err")
       | _ => (slots, "rdp err")
     | _ => (slots, "bad-op")
